@@ -84,8 +84,27 @@ def handleCaller (kind : String) (fs : List (String × String)) : String := Id.r
   -- agreement: the model's characterisation (admissible, distinct, exhaustive on short lists) holds of the result
   return verdict bad.isNone bad (out.length ≥ 1) s!"{kind}{min out.length 3}" ""
 
+/-- a reaping pass on a real node: the kept set is the model's `resetKeep` (as a set: the pass ends with a shuffle) -/
+def handleReset (fs : List (String × String)) : String := Id.run do
+  let some nodes := (get fs "nodes").bind parseNodes | return "PARSE nodes"
+  let out := parseNames (getD fs "out" "-")
+  let sorted (l : List String) := (l.toArray.qsort (· < ·)).toList
+  let want := (resetKeep "S" nodes.toArray).map (·.name)
+  let agree := sorted want == sorted out
+  let bad : Option String := Id.run do
+    if nodes.any (·.name == "S") && !out.contains "S" then return some "own-record-reaped"
+    for n in nodes do
+      if !n.reap && !out.contains n.name then return some s!"live-or-recently-departed-member-forgotten:{n.name}:state={n.state}"
+      if n.reap && n.name != "S" && out.contains n.name then return some s!"long-departed-record-kept:{n.name}"
+    if out.eraseDups.length != out.length then return some "record-listed-twice-after-reaping"
+    for o in out do
+      if !(nodes.any (·.name == o)) then return some s!"record-invented-by-reaping:{o}"
+    return none
+  return verdict agree bad (nodes.any (·.reap)) s!"resetsel{min (nodes.countP (·.reap)) 3}" ""
+
 def handle (kind : String) (fs : List (String × String)) : String :=
   match kind with
+  | "resetsel" => handleReset fs
   | "movedead" => handleMoveDead fs
   | "krand" => handleKRand fs
   | "gossipsel" | "ppsel" | "relaysel" => handleCaller kind fs
